@@ -167,3 +167,7 @@ Ltac keygen unf := intros; sx; leaf unf.
 Ltac clean_list := intros ?t ?v Hin; cbn [In] in Hin;
   repeat match type of Hin with _ \/ _ => destruct Hin as [Hin|Hin] end;
   first [ contradiction Hin | (injection Hin; clear Hin; intros; subst; first [ left; split; reflexivity | right; reflexivity ]) ].
+
+(* ---- the clean-up tail of a function in isolation: goal `(rv, <events> ++ acc) = <continuation>` ---------------------------- *)
+Ltac tail_leaf := norm_hyps; cbv [cleanup]; use_facts; cbn [app]; reflexivity.
+Ltac tail_eq := sx; tail_leaf.
